@@ -59,77 +59,84 @@ func ircUnit(name, run string, quick, thorough int) unit {
 	return unit{Name: name, Pkg: "internal/ircserver", Harness: "ircserver", Run: run, Rapid: true, Quick: quick, Thorough: thorough, QuickTimeoutS: 600, ThoroughTimeoutS: 3000}
 }
 
+// fuzzUnit is a native coverage-guided campaign (thorough tier only): one process with 16 workers for
+// the given number of seconds; the oracle sits inside the target and writes the replay file itself.
+func fuzzUnit(name, pkg, harness, target string, seconds int) unit {
+	return unit{Name: name, Pkg: pkg, Harness: harness, Run: "^" + target + "$", Fuzz: "^" + target + "$", Thorough: seconds, Shards: 1, Weight: 16, ThoroughOnly: true, ThoroughTimeoutS: seconds + 600}
+}
+
 func init() {
 	props = append(props, prop{
 		ID: "C06", Title: "no client line can crash the state machine", Level: "exploration",
-		LevelText:  "State-aware generated histories (all commands x roles x parameter shapes, mutated and garbage lines, conforming services traffic) applied through the same call sequence as FSM.applyRobustMessage with recover(); every line of every history is one evaluation of 'next line in a reachable state'.",
-		LevelNote:  "Services lines are protocol-conforming by construction (role read from the instance); session auth strings have the API's length; config values are well-formed; panics are attributed by the top two ircserver frames.",
-		Technique:  "property-based testing (rapid, state-aware history generator) with a crash oracle; native fuzzing of the line in the thorough tier",
-		DesignRef:  "4/C06",
-		Rule:       "case = generated history of 5-80 committed entries; each IRC line is applied to the state the history built; non-trivial = history in which >=3 lines got past the registration/unknown-command/MinParams gate into a command handler; distinct = hash of the entry list. counters give the number of lines evaluated and how many reached a handler; labels class:<role>:<COMMAND> count histories that exercised that command in that role",
+		LevelText:   "State-aware generated histories (all commands x roles x parameter shapes, mutated and garbage lines, conforming services traffic) applied through the same call sequence as FSM.applyRobustMessage with recover(); every line of every history is one evaluation of 'next line in a reachable state'.",
+		LevelNote:   "Services lines are protocol-conforming by construction (role read from the instance); session auth strings have the API's length; config values are well-formed; panics are attributed by the top two ircserver frames.",
+		Technique:   "property-based testing (rapid, state-aware history generator) with a crash oracle; native coverage-guided fuzzing of whole client histories in the thorough tier",
+		DesignRef:   "4/C06",
+		Rule:        "case = generated history of 5-80 committed entries; each IRC line is applied to the state the history built; non-trivial = history in which >=3 lines got past the registration/unknown-command/MinParams gate into a command handler; distinct = hash of the entry list. counters give the number of lines evaluated and how many reached a handler; labels class:<role>:<COMMAND> count histories that exercised that command in that role",
 		Assumptions: []string{"lines from a services link are protocol-conforming (prefix where the protocol has one, full parameter lists, SVSNICK onto free nicknames)", "CreateSession data (the session secret) has at least 8 characters as the API always produces"},
-		Units:      []unit{ircUnit("lines", "^TestVerifC06$", 40000, 600000)},
+		Units: []unit{ircUnit("lines", "^TestVerifC06$", 40000, 600000),
+			fuzzUnit("fuzz", "internal/ircserver", "ircserver", "FuzzVerifC06", 300)},
 	})
 	props = append(props, prop{
 		ID: "C01", Title: "replica determinism", Level: "exploration",
-		LevelText:  "Differential execution: every generated history is applied entry by entry to three fresh instances with the same network name and different creation times; replies (ids, bytes with only numeric 003 masked, recipient sets) are compared after every entry and the full state (reflection walk over every field) at the end. Go randomises map iteration per loop, so an order dependence over >=2 elements shows with probability >=1/2 per pair of runs.",
-		LevelNote:  "Unit a mirrors FSM.applyRobustMessage in package ircserver; unit b (package main) runs the real applyRobustMessage with a real output stream per instance and cross-checks the mirror.",
-		Technique:  "property-based differential testing (rapid): same generated history on several instances, compare outputs and state",
-		DesignRef:  "4/C01",
-		Rule:       "case = generated history of 5-80 entries (clients, operators, services link with pseudo-clients, config changes, message-of-death entries, generated timestamps) run on 3 instances; non-trivial = some entry produced >=2 replies AND some iterated map held >=2 elements (channel with >=2 members, >=2 pseudo-clients, >=2 bans, session in >=2 channels); distinct = hash of the entry list",
+		LevelText:   "Differential execution: every generated history is applied entry by entry to three fresh instances with the same network name and different creation times; replies (ids, bytes with only numeric 003 masked, recipient sets) are compared after every entry and the full state (reflection walk over every field) at the end. Go randomises map iteration per loop, so an order dependence over >=2 elements shows with probability >=1/2 per pair of runs.",
+		LevelNote:   "Unit a mirrors FSM.applyRobustMessage in package ircserver; unit b (package main) runs the real applyRobustMessage with a real output stream per instance and cross-checks the mirror.",
+		Technique:   "property-based differential testing (rapid): same generated history on several instances, compare outputs and state",
+		DesignRef:   "4/C01",
+		Rule:        "case = generated history of 5-80 entries (clients, operators, services link with pseudo-clients, config changes, message-of-death entries, generated timestamps) run on 3 instances; non-trivial = some entry produced >=2 replies AND some iterated map held >=2 elements (channel with >=2 members, >=2 pseudo-clients, >=2 bans, session in >=2 channels); distinct = hash of the entry list",
 		Assumptions: []string{"instances are created with the same network name; numeric 003 is the only tolerated difference"},
-		Units:      []unit{ircUnit("ircserver", "^TestVerifC01$", 30000, 400000), mainUnit("fsm", "^TestVerifC01Main$", 1600, 40000)},
+		Units:       []unit{ircUnit("ircserver", "^TestVerifC01$", 30000, 400000), mainUnit("fsm", "^TestVerifC01Main$", 1600, 40000)},
 	})
 	props = append(props, prop{
 		ID: "C03", Title: "state serialization is complete", Level: "exploration",
-		LevelText:  "Round trip + differential continuation: after EVERY entry of every generated history the state is marshalled into a fresh instance and compared field by field (reflection walk that covers fields added later, rebuilt indexes included) and through the API-visible configuration probes; from one generated cut point on, the never-serialized and the restored instance both execute the rest of the history and must answer identically.",
-		LevelNote:  "nil and empty maps/slices are the same state in the walk (behaviour that distinguishes them is compared through probes); the server creation time (numeric 003) is exempt.",
-		Technique:  "property-based testing (rapid): round-trip oracle at every cut point + differential continuation",
-		DesignRef:  "4/C03",
-		Rule:       "case = generated history of 8-80 entries with a generated cut point; round trip compared after every entry; non-trivial = the cut happened, the state at the cut held at least one of {nick-less session, nick but not logged in, operator, services link with >=2 pseudo-clients, invited session, keyed/banned/+x/+i channel, topic, svshold, away, solved captcha, non-default config} AND the continuation produced replies; distinct = hash of the entry list",
+		LevelText:   "Round trip + differential continuation: after EVERY entry of every generated history the state is marshalled into a fresh instance and compared field by field (reflection walk that covers fields added later, rebuilt indexes included) and through the API-visible configuration probes; from one generated cut point on, the never-serialized and the restored instance both execute the rest of the history and must answer identically.",
+		LevelNote:   "nil and empty maps/slices are the same state in the walk (behaviour that distinguishes them is compared through probes); the server creation time (numeric 003) is exempt.",
+		Technique:   "property-based testing (rapid): round-trip oracle at every cut point + differential continuation",
+		DesignRef:   "4/C03",
+		Rule:        "case = generated history of 8-80 entries with a generated cut point; round trip compared after every entry; non-trivial = the cut happened, the state at the cut held at least one of {nick-less session, nick but not logged in, operator, services link with >=2 pseudo-clients, invited session, keyed/banned/+x/+i channel, topic, svshold, away, solved captcha, non-default config} AND the continuation produced replies; distinct = hash of the entry list",
 		Assumptions: []string{"continuations are drawn from the same generator as histories (biased to commands that read state)"},
-		Units:      []unit{ircUnit("roundtrip", "^TestVerifC03$", 12000, 200000)},
+		Units:       []unit{ircUnit("roundtrip", "^TestVerifC03$", 12000, 200000)},
 	})
 	props = append(props, prop{
 		ID: "C12", Title: "messages reach exactly the entitled sessions under the real identity", Level: "exploration",
-		LevelText:  "Every output line of every entry of every generated history is judged against lower/upper bounds on its non-services recipients derived per line kind from the statement, using a channel-membership model that is driven only by the events the server announces, and against the sender identity (nick, user, session-derived host) of the instance; the model's membership is cross-checked against the instance after every entry.",
-		LevelNote:  "Services links are exempt as recipients. Line kinds that are not in the table are counted as unclassified and not judged (an unknown shape is never an alarm). Nickname ownership is read from the instance.",
-		Technique:  "property-based testing (rapid) against an event-driven reference model of channel membership",
-		DesignRef:  "4/C12",
-		Rule:       "case = generated history of 10-100 entries biased to membership changes; every output line is an evaluated obligation (counter lines_judged); non-trivial history = contains a line with >=2 entitled recipients while some other live logged-in session is not entitled; distinct = hash of the entry list",
+		LevelText:   "Every output line of every entry of every generated history is judged against lower/upper bounds on its non-services recipients derived per line kind from the statement, using a channel-membership model that is driven only by the events the server announces, and against the sender identity (nick, user, session-derived host) of the instance; the model's membership is cross-checked against the instance after every entry.",
+		LevelNote:   "Services links are exempt as recipients. Line kinds that are not in the table are counted as unclassified and not judged (an unknown shape is never an alarm). Nickname ownership is read from the instance.",
+		Technique:   "property-based testing (rapid) against an event-driven reference model of channel membership",
+		DesignRef:   "4/C12",
+		Rule:        "case = generated history of 10-100 entries biased to membership changes; every output line is an evaluated obligation (counter lines_judged); non-trivial history = contains a line with >=2 entitled recipients while some other live logged-in session is not entitled; distinct = hash of the entry list",
 		Assumptions: []string{"services links may receive anything", "the table of line kinds (DESIGN.md C12) covers the commands in the tree; others are reported as unclassified"},
-		Units:      []unit{ircUnit("recipients", "^TestVerifC12$", 40000, 500000)},
+		Units:       []unit{ircUnit("recipients", "^TestVerifC12$", 40000, 500000)},
 	})
 	props = append(props, prop{
 		ID: "C13", Title: "privileged effects require the privilege", Level: "exploration",
-		LevelText:  "Pre/post diff of the privileged state (channel modes, key, bans, per-member operator flag, topic, membership, invitations, IRC-operator and services flags, network bans, session liveness) around every entry of generated histories; each difference must satisfy the authorisation predicate of the statement evaluated on the pre-state (inductive over the history because privilege changes are themselves checked). Captcha tokens of all validity classes are generated and verified independently.",
-		LevelNote:  "Ban matching in the oracle is anchored (a subset of the unanchored server matching), the one-minute grace after a solved captcha is honoured, services-caused changes are authorised by the services flag whose acquisition is itself checked.",
-		Technique:  "property-based testing (rapid): state-diff oracle with authorisation predicates",
-		DesignRef:  "4/C13",
-		Rule:       "case = generated history of 10-100 entries biased to MODE/KICK/INVITE/TOPIC/OPER/KILL/GLINE/JOIN with keys, invitations, bans and captcha tokens; non-trivial = history with >=3 privileged events (an authorised change of privileged state or a refusal 481/482/473/474/475/464); labels c13:<event>/<actor standing or restriction set> count histories; distinct = hash of the entry list",
+		LevelText:   "Pre/post diff of the privileged state (channel modes, key, bans, per-member operator flag, topic, membership, invitations, IRC-operator and services flags, network bans, session liveness) around every entry of generated histories; each difference must satisfy the authorisation predicate of the statement evaluated on the pre-state (inductive over the history because privilege changes are themselves checked). Captcha tokens of all validity classes are generated and verified independently.",
+		LevelNote:   "Ban matching in the oracle is anchored (a subset of the unanchored server matching), the one-minute grace after a solved captcha is honoured, services-caused changes are authorised by the services flag whose acquisition is itself checked.",
+		Technique:   "property-based testing (rapid): state-diff oracle with authorisation predicates",
+		DesignRef:   "4/C13",
+		Rule:        "case = generated history of 10-100 entries biased to MODE/KICK/INVITE/TOPIC/OPER/KILL/GLINE/JOIN with keys, invitations, bans and captcha tokens; non-trivial = history with >=3 privileged events (an authorised change of privileged state or a refusal 481/482/473/474/475/464); labels c13:<event>/<actor standing or restriction set> count histories; distinct = hash of the entry list",
 		Assumptions: []string{"services links act with full privilege once authenticated", "predicates are evaluated on the implementation's own pre-state (see DESIGN.md section 6)"},
-		Units:      []unit{ircUnit("privileges", "^TestVerifC13$", 30000, 400000)},
+		Units:       []unit{ircUnit("privileges", "^TestVerifC13$", 30000, 400000)},
 	})
 	props = append(props, prop{
 		ID: "C14", Title: "IRC state stays consistent", Level: "exploration",
-		LevelText:  "Generated mixed histories (nick changes incl. case-only and []\\ / {}| variants, joins/parts/kicks/quits/kills/glines, deletions and expiries, services SVS* commands, small session/channel limits, Marshal/Unmarshal round trips as history steps) with an in-package invariant walk over the three indexes after every entry.",
-		LevelNote:  "The case mapping and the validity grammar are re-stated in the harness independently of the code; SVSNICK only onto free nicknames and only for regular client sessions (the property's quantifier).",
-		Technique:  "property-based testing (rapid, stateful history generation) with a state invariant checked after every step",
-		DesignRef:  "4/C14",
-		Rule:       "case = generated history of 20-120 entries biased to membership changes; invariant walk after every entry (and after every inserted snapshot round trip); non-trivial = history with a nick change of a channel member AND a forced removal (KICK/KILL) AND a session that ended while in >=2 channels; distinct = hash of the entry list",
+		LevelText:   "Generated mixed histories (nick changes incl. case-only and []\\ / {}| variants, joins/parts/kicks/quits/kills/glines, deletions and expiries, services SVS* commands, small session/channel limits, Marshal/Unmarshal round trips as history steps) with an in-package invariant walk over the three indexes after every entry.",
+		LevelNote:   "The case mapping and the validity grammar are re-stated in the harness independently of the code; SVSNICK only onto free nicknames and only for regular client sessions (the property's quantifier).",
+		Technique:   "property-based testing (rapid, stateful history generation) with a state invariant checked after every step",
+		DesignRef:   "4/C14",
+		Rule:        "case = generated history of 20-120 entries biased to membership changes; invariant walk after every entry (and after every inserted snapshot round trip); non-trivial = history with a nick change of a channel member AND a forced removal (KICK/KILL) AND a session that ended while in >=2 channels; distinct = hash of the entry list",
 		Assumptions: []string{"SVSNICK targets regular client sessions and free nicknames", "services introduce pseudo-clients with valid nicknames"},
-		Units:      []unit{ircUnit("invariants", "^TestVerifC14$", 40000, 500000)},
+		Units:       []unit{ircUnit("invariants", "^TestVerifC14$", 40000, 500000)},
 	})
 }
 
 func init() {
 	props = append(props, prop{
 		ID: "C17", Title: "session lifecycle", Level: "exploration",
-		LevelText:  "Three generated checks: (a) after every entry of a generated history (each prefix is a possible lag of the observed node) GetSession is queried for every id created so far, its neighbours and ids newer than anything applied, also after snapshot+restore of the prefix; (b) generated sets of sessions whose last activity lies on either side of the configured expiration (>= 2 s away from it, with services links and pseudo-clients) are swept by ExpireSessions and the result is compared with the exact expected set; (c) after every session end the nickname must be free (a new session takes it on a clone), no channel may list it and no later line may name it as recipient.",
-		LevelNote:  "(b) uses the wall clock as the code does; cases keep >= 2 s distance from the threshold so that the test's own latency cannot decide. Pseudo-clients that outlive a killed hybrid link share the link's id and are not counted as 'the ended session being addressed'.",
-		Technique:  "property-based testing (rapid): history invariants over lookups per applied prefix + exact-set oracle for the expiry sweep",
-		DesignRef:  "4/C17",
-		Rule:       "unit lifecycle: case = generated history of 10-100 entries, non-trivial = some prefix had a live and an already ended session AND an ended session had shared a channel with others; unit expiry: case = 1-7 sessions with generated idle times around one of 4 expirations, non-trivial = sessions on both sides of the threshold plus a services link with pseudo-clients; distinct = hash of the case",
+		LevelText:   "Three generated checks: (a) after every entry of a generated history (each prefix is a possible lag of the observed node) GetSession is queried for every id created so far, its neighbours and ids newer than anything applied, also after snapshot+restore of the prefix; (b) generated sets of sessions whose last activity lies on either side of the configured expiration (>= 2 s away from it, with services links and pseudo-clients) are swept by ExpireSessions and the result is compared with the exact expected set; (c) after every session end the nickname must be free (a new session takes it on a clone), no channel may list it and no later line may name it as recipient.",
+		LevelNote:   "(b) uses the wall clock as the code does; cases keep >= 2 s distance from the threshold so that the test's own latency cannot decide. Pseudo-clients that outlive a killed hybrid link share the link's id and are not counted as 'the ended session being addressed'.",
+		Technique:   "property-based testing (rapid): history invariants over lookups per applied prefix + exact-set oracle for the expiry sweep",
+		DesignRef:   "4/C17",
+		Rule:        "unit lifecycle: case = generated history of 10-100 entries, non-trivial = some prefix had a live and an already ended session AND an ended session had shared a channel with others; unit expiry: case = 1-7 sessions with generated idle times around one of 4 expirations, non-trivial = sessions on both sides of the threshold plus a services link with pseudo-clients; distinct = hash of the case",
 		Assumptions: []string{"ids are unique and increasing (raft indexes)", "expiry cases stay >= 2 s away from the threshold"},
 		Units: []unit{
 			ircUnit("lifecycle", "^TestVerifC17$", 16000, 200000),
@@ -141,11 +148,11 @@ func init() {
 func init() {
 	props = append(props, prop{
 		ID: "C09", Title: "LevelDB store honours the LogStore/StableStore contracts", Level: "fault_enumeration",
-		LevelText:  "Generated operation sequences (batched and single appends in both encodings, StoreLogProto, range deletions of every shape, stable-store writes with keys that look like log indexes, close/reopen, JSON->protobuf conversion) are executed against the real store and an in-memory map and compared after every step through FirstIndex/LastIndex/GetLog/Get/GetUint64; in the kill unit the sequence runs in a child process that is SIGKILLed at a generated acknowledged operation and the reopened store must equal the model after some prefix not shorter than what was acknowledged.",
-		LevelNote:  "Crash points are process kills (the page cache survives); power loss is out of reach and not claimed by the code. LogCommand payloads are valid replicated messages (the conversion decodes them); indexes stay below the stablestore- key space (raft indexes start at 1 and grow by 1).",
-		Technique:  "model-based property testing (rapid) against a map model, with generated close/reopen and SIGKILL points",
-		DesignRef:  "4/C09",
-		Rule:       "case = 3-40 generated operations; non-trivial = a reopen (or kill) after a range deletion AND a stable-store write between log writes; distinct = hash of the operation list; labels give the encoding mix and how many cases convert JSON to protobuf",
+		LevelText:   "Generated operation sequences (batched and single appends in both encodings, StoreLogProto, range deletions of every shape, stable-store writes with keys that look like log indexes, close/reopen, JSON->protobuf conversion) are executed against the real store and an in-memory map and compared after every step through FirstIndex/LastIndex/GetLog/Get/GetUint64; in the kill unit the sequence runs in a child process that is SIGKILLed at a generated acknowledged operation and the reopened store must equal the model after some prefix not shorter than what was acknowledged.",
+		LevelNote:   "Crash points are process kills (the page cache survives); power loss is out of reach and not claimed by the code. LogCommand payloads are valid replicated messages (the conversion decodes them); indexes stay below the stablestore- key space (raft indexes start at 1 and grow by 1).",
+		Technique:   "model-based property testing (rapid) against a map model, with generated close/reopen and SIGKILL points",
+		DesignRef:   "4/C09",
+		Rule:        "case = 3-40 generated operations; non-trivial = a reopen (or kill) after a range deletion AND a stable-store write between log writes; distinct = hash of the operation list; labels give the encoding mix and how many cases convert JSON to protobuf",
 		Assumptions: []string{"payloads of LogCommand entries are robust messages (JSON or 'p'+protobuf)", "log indexes < 2^56"},
 		Units: []unit{
 			{Name: "model", Pkg: "internal/raftstore", Harness: "raftstore", Run: "^TestVerifC09$", Rapid: true, Quick: 6000, Thorough: 120000, QuickTimeoutS: 600, ThoroughTimeoutS: 3000},
@@ -157,17 +164,19 @@ func init() {
 func init() {
 	props = append(props, prop{
 		ID: "C18", Title: "every writer/reader pair round-trips", Level: "exploration",
-		LevelText:  "Round-trip, differential and fixpoint oracles over generated values: replicated messages through 'p'+protobuf and legacy JSON with the id defaulting to the raft index only when absent, ProtoMessage against CopyToProtoMessage into a reused destination, raft log entries through every writer of the store against GetLog and raftlog.FromBytes, output batches through the hand-written codec; the readers that are inlined in package main (Snapshot, decodeProtobuf, the text-log dump) are compared in the package main unit.",
-		LevelNote:  "Strings are valid UTF-8 (protobuf strings must be); recipient maps are true-valued as every producer writes them.",
-		Technique:  "property-based testing (rapid): round-trip / differential / fixpoint oracles; native fuzzing of the decoders in the thorough tier",
-		DesignRef:  "4/C18",
-		Rule:       "messages: all 9 types, zero/small/random/max integers, texts from empty to 2.4 kB incl. control and multi-byte characters, 0-3 servers, non-trivial = >=3 non-zero optional fields; batches: 0-5 messages with 0-5 recipients, non-trivial = >=2 messages and one with >=2 recipients; log entries: all log types through all three writers in both modes, non-trivial = >=3 of term/extensions/append time/data/type non-zero; package main: generated histories applied through FSM.Apply with generated term/extensions/append time, then text-log dump compared row by row and snapshot+persist+restore compared entry by entry, non-trivial = an entry with extensions and >=2 client lines; distinct = hash of the value",
+		LevelText:   "Round-trip, differential and fixpoint oracles over generated values: replicated messages through 'p'+protobuf and legacy JSON with the id defaulting to the raft index only when absent, ProtoMessage against CopyToProtoMessage into a reused destination, raft log entries through every writer of the store against GetLog and raftlog.FromBytes, output batches through the hand-written codec; the readers that are inlined in package main (Snapshot, decodeProtobuf, the text-log dump) are compared in the package main unit.",
+		LevelNote:   "Strings are valid UTF-8 (protobuf strings must be); recipient maps are true-valued as every producer writes them.",
+		Technique:   "property-based testing (rapid): round-trip / differential / fixpoint oracles; native coverage-guided fuzzing of the message and batch codecs with the same oracles in the thorough tier",
+		DesignRef:   "4/C18",
+		Rule:        "messages: all 9 types, zero/small/random/max integers, texts from empty to 2.4 kB incl. control and multi-byte characters, 0-3 servers, non-trivial = >=3 non-zero optional fields; batches: 0-5 messages with 0-5 recipients, non-trivial = >=2 messages and one with >=2 recipients; log entries: all log types through all three writers in both modes, non-trivial = >=3 of term/extensions/append time/data/type non-zero; package main: generated histories applied through FSM.Apply with generated term/extensions/append time, then text-log dump compared row by row and snapshot+persist+restore compared entry by entry, non-trivial = an entry with extensions and >=2 client lines; distinct = hash of the value",
 		Assumptions: []string{"text fields are valid UTF-8"},
 		Units: []unit{
 			{Name: "messages", Pkg: "internal/robust", Harness: "robust", Run: "^TestVerifC18Messages$", Rapid: true, Quick: 60000, Thorough: 3000000, QuickTimeoutS: 600, ThoroughTimeoutS: 3000},
 			{Name: "batches", Pkg: "internal/outputstream", Harness: "outputstream", Run: "^TestVerifC18Batches$", Rapid: true, Quick: 60000, Thorough: 3000000, QuickTimeoutS: 600, ThoroughTimeoutS: 3000},
 			{Name: "logentries", Pkg: "internal/raftstore", Harness: "raftstore", Run: "^TestVerifC18LogEntries$", Rapid: true, Quick: 3000, Thorough: 60000, QuickTimeoutS: 600, ThoroughTimeoutS: 3000},
 			mainUnit("fsm", "^TestVerifC18Main$", 800, 16000),
+			fuzzUnit("fuzz-messages", "internal/robust", "robust", "FuzzVerifC18Messages", 150),
+			fuzzUnit("fuzz-batches", "internal/outputstream", "outputstream", "FuzzVerifC18Batches", 150),
 		},
 	})
 }
@@ -175,11 +184,11 @@ func init() {
 func init() {
 	props = append(props, prop{
 		ID: "C08", Title: "output stream next-message lookup under every interleaving", Level: "exploration",
-		LevelText:  "The output stream is compiled against a scheduler-controlled drop-in for package sync; generated programs (a writer thread adding batches in increasing id order and deleting oldest-first or non-existing ids, reader threads calling GetNext(x)/Get with x over 0, present, deleted, gap and ahead-of-the-node positions, cancel+InterruptGetNext steps) run under schedules drawn by rapid (unit random) or enumerated exhaustively by DFS per program (unit dfs). A versioned sorted-map model, advanced at the exact Unlock of each mutation, decides every return value; quiescence and the final interrupt decide blocking.",
-		LevelNote:  "Interleavings are controlled at the granularity of the stream's lock operations; LevelDB internals run freely. A client that is ahead of the node gets the next added batch (the only caller compensates), which the oracle accepts.",
-		Technique:  "property-based testing with a controlled scheduler (rapid-drawn and DFS-enumerated schedules) against a versioned reference model",
-		DesignRef:  "4/C08",
-		Rule:       "case = program (0-4 set-up operations, writer with 1-4 operations, 1-2 readers with 1-4 operations) + schedule; non-trivial = some GetNext/Get spanned at least one Add/Delete critical section between its invocation and its return; distinct = hash of program + schedule; unit dfs enumerates all schedules of 2-thread programs with <=3 operations each (label says how many programs were enumerated completely); unit sequential runs 5-60 operation programs (deletes of oldest/tail/middle/non-existing, >1000-batch bursts that churn the read cache) against a sorted map, non-trivial = a GetNext after a delete",
+		LevelText:   "The output stream is compiled against a scheduler-controlled drop-in for package sync; generated programs (a writer thread adding batches in increasing id order and deleting oldest-first or non-existing ids, reader threads calling GetNext(x)/Get with x over 0, present, deleted, gap and ahead-of-the-node positions, cancel+InterruptGetNext steps) run under schedules drawn by rapid (unit random) or enumerated exhaustively by DFS per program (unit dfs). A versioned sorted-map model, advanced at the exact Unlock of each mutation, decides every return value; quiescence and the final interrupt decide blocking.",
+		LevelNote:   "Interleavings are controlled at the granularity of the stream's lock operations; LevelDB internals run freely. A client that is ahead of the node gets the next added batch (the only caller compensates), which the oracle accepts.",
+		Technique:   "property-based testing with a controlled scheduler (rapid-drawn and DFS-enumerated schedules) against a versioned reference model",
+		DesignRef:   "4/C08",
+		Rule:        "case = program (0-4 set-up operations, writer with 1-4 operations, 1-2 readers with 1-4 operations) + schedule; non-trivial = some GetNext/Get spanned at least one Add/Delete critical section between its invocation and its return; distinct = hash of program + schedule; unit dfs enumerates all schedules of 2-thread programs with <=3 operations each (label says how many programs were enumerated completely); unit sequential runs 5-60 operation programs (deletes of oldest/tail/middle/non-existing, >1000-batch bursts that churn the read cache) against a sorted map, non-trivial = a GetNext after a delete",
 		Assumptions: []string{"batches are added in increasing id order by one goroutine (raft's FSM goroutine), deletions while readers are active are oldest-first"},
 		Units: []unit{
 			{Name: "random", Pkg: "internal/outputstream", Harness: "outputstream_vsync", Mode: "vsync", Run: "^TestVerifC08$", Rapid: true, Quick: 6000, Thorough: 300000, QuickTimeoutS: 600, ThoroughTimeoutS: 3000},
@@ -192,11 +201,11 @@ func init() {
 func init() {
 	props = append(props, prop{
 		ID: "C04", Title: "exactly-once, in-order delivery on resume", Level: "exploration",
-		LevelText:  "The real api.getMessages runs as a scheduler-controlled goroutine against vsync-built output streams of 1-3 nodes that hold generated prefixes of one output history, while a feeder goroutine per connection applies further batches; clients consume a generated number of messages (also inside a multi-reply batch), disconnect, and resume with the id of the last message on the same or another node (possibly one that has not applied that batch yet, or has compacted older batches). The concatenation of everything consumed must equal the session's message sequence.",
-		LevelNote:  "The consumer applies the handler's one-line recipient filter; JSON streaming and supersede logic of the HTTP handler are exercised by the in-process node checks. The 250 ms back-off is real time and never used as a correctness signal.",
-		Technique:  "property-based testing with a controlled scheduler (rapid-drawn interleavings) and a sequence oracle over the concatenated reads",
-		DesignRef:  "4/C04",
-		Rule:       "case = 1-7 batches (1-4 replies, recipient subsets of 3 sessions), 1-3 nodes with generated applied prefixes, 1-4 connections (node, batches applied meanwhile, messages consumed before the disconnect, compaction before reconnect) + one schedule per connection; non-trivial = >=2 connections and a reconnect inside a multi-reply batch or to a node that is behind the resume point; distinct = hash of case + schedules",
+		LevelText:   "The real api.getMessages runs as a scheduler-controlled goroutine against vsync-built output streams of 1-3 nodes that hold generated prefixes of one output history, while a feeder goroutine per connection applies further batches; clients consume a generated number of messages (also inside a multi-reply batch), disconnect, and resume with the id of the last message on the same or another node (possibly one that has not applied that batch yet, or has compacted older batches). The concatenation of everything consumed must equal the session's message sequence.",
+		LevelNote:   "The consumer applies the handler's one-line recipient filter; JSON streaming and supersede logic of the HTTP handler are exercised by the in-process node checks. The 250 ms back-off is real time and never used as a correctness signal.",
+		Technique:   "property-based testing with a controlled scheduler (rapid-drawn interleavings) and a sequence oracle over the concatenated reads",
+		DesignRef:   "4/C04",
+		Rule:        "case = 1-7 batches (1-4 replies, recipient subsets of 3 sessions), 1-3 nodes with generated applied prefixes, 1-4 connections (node, batches applied meanwhile, messages consumed before the disconnect, compaction before reconnect) + one schedule per connection; non-trivial = >=2 connections and a reconnect inside a multi-reply batch or to a node that is behind the resume point; distinct = hash of case + schedules",
 		Assumptions: []string{"resume points are newer than the compaction horizon of the node", "the last connection stays open on a node that eventually applies every batch"},
 		Units: []unit{
 			{Name: "resume", Pkg: "internal/api", Harness: "api_vsync", Mode: "vsync", Run: "^TestVerifC04$", Rapid: true, Quick: 8000, Thorough: 160000, QuickTimeoutS: 600, ThoroughTimeoutS: 3000},
@@ -211,26 +220,26 @@ func mainUnit(name, run string, quick, thorough int) unit {
 func init() {
 	props = append(props, prop{
 		ID: "C02", Title: "compaction, snapshot and restore never change the replicated state", Level: "fault_enumeration",
-		LevelText:  "A rapid state machine over the real FSM (real LevelDB log copy, output stream and file snapshot store): generated logs (ircgen histories with index gaps, config entries that change the expiration, arbitrary time jumps) and generated schedules of Apply / Snapshot+Persist at generated compaction times (horizon before everything, at or around any entry, after everything) / Persist failing after k bytes / applies between Snapshot and Persist / Restore of the newest snapshot / restart with a fresh FSM. After every action the node is compared with a reference that applied the same prefix through the real applyRobustMessage and never snapshotted: full state (reflection walk), output per retained input, and exact agreement of log copy and output store with a model of what has been folded.",
-		LevelNote:  "The horizon is computed from the expiration in force on the reference; compaction times are non-decreasing as wall-clock time is. Process restarts are modelled as a fresh FSM over the on-disk stores (a real single node cannot restart, see DESIGN.md 3.5).",
-		Technique:  "stateful property-based testing (rapid) with generated fault schedules against a never-snapshotted reference and a fold model",
-		DesignRef:  "4/C02",
-		Rule:       "case = generated log (4-50 entries) + 3-30 generated actions; non-trivial = a snapshot that folded >=1 entry was later followed by a restore or restart; labels count the sub-classes (snapshot folded everything, failed persist, applies between snapshot and persist, config entry in the log, legacy JSON encoding); distinct = hash of log + actions",
+		LevelText:   "A rapid state machine over the real FSM (real LevelDB log copy, output stream and file snapshot store): generated logs (ircgen histories with index gaps, config entries that change the expiration, arbitrary time jumps) and generated schedules of Apply / Snapshot+Persist at generated compaction times (horizon before everything, at or around any entry, after everything) / Persist failing after k bytes / applies between Snapshot and Persist / Restore of the newest snapshot / restart with a fresh FSM. After every action the node is compared with a reference that applied the same prefix through the real applyRobustMessage and never snapshotted: full state (reflection walk), output per retained input, and exact agreement of log copy and output store with a model of what has been folded.",
+		LevelNote:   "The horizon is computed from the expiration in force on the reference; compaction times are non-decreasing as wall-clock time is. Process restarts are modelled as a fresh FSM over the on-disk stores (a real single node cannot restart, see DESIGN.md 3.5).",
+		Technique:   "stateful property-based testing (rapid) with generated fault schedules against a never-snapshotted reference and a fold model",
+		DesignRef:   "4/C02",
+		Rule:        "case = generated log (4-50 entries) + 3-30 generated actions; non-trivial = a snapshot that folded >=1 entry was later followed by a restore or restart; labels count the sub-classes (snapshot folded everything, failed persist, applies between snapshot and persist, config entry in the log, legacy JSON encoding); distinct = hash of log + actions",
 		Assumptions: []string{"Snapshot and Restore run on raft's FSM goroutine and are never concurrent with Apply", "compaction times are non-decreasing"},
-		Units:      []unit{mainUnit("fsm", "^TestVerifC02$", 3200, 48000)},
+		Units:       []unit{mainUnit("fsm", "^TestVerifC02$", 3200, 48000)},
 	})
 }
 
 func init() {
 	props = append(props, prop{
 		ID: "C07", Title: "a message of death is contained", Level: "fault_enumeration",
-		LevelText:  "Generated histories with the test-only PANIC command injected at generated positions from generated roles (unregistered and services sessions never reach the handler, registered clients and operators do); the log is written to a real raft log store, a child process applies it through FSM.Apply and is expected to die in glog.Fatalf; the parent inspects the durable log (exactly that entry re-typed as message of death, everything else intact), restarts children until one survives (optionally snapshotting and restoring on the way), and compares the survivor's full state and per-entry outputs with an in-process reference that skips the marked entries but records their client message ids.",
-		LevelNote:  "The crash is the real one (process exit inside the deferred recover); up to two crashing entries per history; the children replay the log from the durable store as raft does on start.",
-		Technique:  "property-based fault injection (rapid): generated crash positions/roles, child processes, differential comparison with a reference replay",
-		DesignRef:  "4/C07",
-		Rule:       "case = history of 6-40 entries with 1-2 injected PANIC lines (+ optional snapshot/restore points on the restarted node); non-trivial = a PANIC reached the handler AND a later entry of the same session follows it; distinct = hash of the case",
+		LevelText:   "Generated histories with the test-only PANIC command injected at generated positions from generated roles (unregistered and services sessions never reach the handler, registered clients and operators do); the log is written to a real raft log store, a child process applies it through FSM.Apply and is expected to die in glog.Fatalf; the parent inspects the durable log (exactly that entry re-typed as message of death, everything else intact), restarts children until one survives (optionally snapshotting and restoring on the way), and compares the survivor's full state and per-entry outputs with an in-process reference that skips the marked entries but records their client message ids.",
+		LevelNote:   "The crash is the real one (process exit inside the deferred recover); up to two crashing entries per history; the children replay the log from the durable store as raft does on start.",
+		Technique:   "property-based fault injection (rapid): generated crash positions/roles, child processes, differential comparison with a reference replay",
+		DesignRef:   "4/C07",
+		Rule:        "case = history of 6-40 entries with 1-2 injected PANIC lines (+ optional snapshot/restore points on the restarted node); non-trivial = a PANIC reached the handler AND a later entry of the same session follows it; distinct = hash of the case",
 		Assumptions: []string{"the PANIC command is only registered in the child processes (environment variable at process start)"},
-		Units:      []unit{{Name: "children", Pkg: ".", Harness: "main", Run: "^TestVerifC07$", Rapid: true, Quick: 960, Thorough: 16000, QuickTimeoutS: 600, ThoroughTimeoutS: 3000}},
+		Units:       []unit{{Name: "children", Pkg: ".", Harness: "main", Run: "^TestVerifC07$", Rapid: true, Quick: 960, Thorough: 16000, QuickTimeoutS: 600, ThoroughTimeoutS: 3000}},
 	})
 }
 
@@ -241,76 +250,77 @@ func nodeUnit(name, run string, quick, thorough int) unit {
 func init() {
 	props = append(props, prop{
 		ID: "C10", Title: "a retried POST is never applied twice", Level: "exploration",
-		LevelText:  "An in-process single node (real raft, LevelDB stores, output stream and api.HTTP) is driven by generated action sequences: sessions post lines through POST .../message, repeat the last POST with the same client message id 1-3 times (after other sessions' traffic, after forced snapshots, after restarts that restore from the snapshot, after the session ended, after an injected already-marked message-of-death entry). Every retry must be acknowledged and leave raft's last index, the log copy, and the output stream untouched; after every action the duplicate-detection marker of every session is compared between the live node and a replica that replays the durable raft log; at the end an observer's stream must contain every posted text exactly once.",
-		LevelNote:  "Retries are generated only after the first copy has been applied on the handling node (the property's quantifier); client message ids are non-zero. After the session ended a retry may be answered 404 (the bridge stops then) but must still not be applied.",
-		Technique:  "stateful property-based testing (rapid) of the real HTTP handler + raft + FSM against invariants over log length, output and replica markers",
-		DesignRef:  "4/C10",
-		Rule:       "case = 4-30 generated actions (create/line/retry/message-of-death/delete/snapshot/restart) on up to 5 sessions; non-trivial = a retry that follows another session's message or a snapshot/restart; distinct = hash of the action list",
+		LevelText:   "An in-process single node (real raft, LevelDB stores, output stream and api.HTTP) is driven by generated action sequences: sessions post lines through POST .../message, repeat the last POST with the same client message id 1-3 times (after other sessions' traffic, after forced snapshots, after restarts that restore from the snapshot, after the session ended, after an injected already-marked message-of-death entry). Every retry must be acknowledged and leave raft's last index, the log copy, and the output stream untouched; after every action the duplicate-detection marker of every session is compared between the live node and a replica that replays the durable raft log; at the end an observer's stream must contain every posted text exactly once.",
+		LevelNote:   "Retries are generated only after the first copy has been applied on the handling node (the property's quantifier); client message ids are non-zero. After the session ended a retry may be answered 404 (the bridge stops then) but must still not be applied.",
+		Technique:   "stateful property-based testing (rapid) of the real HTTP handler + raft + FSM against invariants over log length, output and replica markers",
+		DesignRef:   "4/C10",
+		Rule:        "case = 4-30 generated actions (create/line/retry/message-of-death/delete/snapshot/restart) on up to 5 sessions; non-trivial = a retry that follows another session's message or a snapshot/restart; distinct = hash of the action list",
 		Assumptions: []string{"single voter raft in-process; PostMessageCooloff=0 installed through POST /config"},
-		Units:      []unit{nodeUnit("node", "^TestVerifC10$", 480, 12000)},
+		Units:       []unit{nodeUnit("node", "^TestVerifC10$", 480, 12000)},
 	})
 }
 
 func init() {
 	props = append(props, prop{
 		ID: "C16", Title: "config: only valid current-revision updates take effect, same on all nodes", Level: "exploration",
-		LevelText:  "Generated sequences of POST /config (members of the configuration family, invalid TOML, current/stale/future/garbage/missing revision headers) on an in-process node, interleaved with sessions, OPER attempts with the old and new passwords, GLINEs by an operator, unparsable Config entries placed directly in the log, snapshots (also folding everything into the snapshot state) and restarts. A model (revision, last accepted config + GLINE bans) decides acceptance; after every action GET /config (body and revision header), the configuration in force on the node, and the configuration of a replica that replays the durable log must all agree.",
-		LevelNote:  "Updates are issued one after another (the property's quantifier). Behaviour that depends on the configuration is sampled through OPER; the rest is compared structurally (every field of config.Network).",
-		Technique:  "model-based stateful property testing (rapid) of the real HTTP handlers + raft + FSM with a replica-agreement oracle",
-		DesignRef:  "4/C16",
-		Rule:       "case = 8-40 generated actions; non-trivial = at least one accepted update, one rejected for its revision, one invalid TOML, and a restart after an accepted update; distinct = hash of the action list",
+		LevelText:   "Generated sequences of POST /config (members of the configuration family, invalid TOML, current/stale/future/garbage/missing revision headers) on an in-process node, interleaved with sessions, OPER attempts with the old and new passwords, GLINEs by an operator, unparsable Config entries placed directly in the log, snapshots (also folding everything into the snapshot state) and restarts. A model (revision, last accepted config + GLINE bans) decides acceptance; after every action GET /config (body and revision header), the configuration in force on the node, and the configuration of a replica that replays the durable log must all agree.",
+		LevelNote:   "Updates are issued one after another (the property's quantifier). Behaviour that depends on the configuration is sampled through OPER; the rest is compared structurally (every field of config.Network).",
+		Technique:   "model-based stateful property testing (rapid) of the real HTTP handlers + raft + FSM with a replica-agreement oracle",
+		DesignRef:   "4/C16",
+		Rule:        "case = 8-40 generated actions; non-trivial = at least one accepted update, one rejected for its revision, one invalid TOML, and a restart after an accepted update; distinct = hash of the action list",
 		Assumptions: []string{"configuration posts are issued one after another", "single voter raft in-process"},
-		Units:      []unit{nodeUnit("node", "^TestVerifC16$", 480, 10000)},
+		Units:       []unit{nodeUnit("node", "^TestVerifC16$", 480, 10000)},
 	})
 }
 
 func init() {
 	props = append(props, prop{
 		ID: "C15", Title: "every delivered line is a single well-formed IRC line", Level: "exploration",
-		LevelText:  "Generated POST bodies (JSON with control characters incl. CR/LF/NUL and whole forged second lines, over-long ASCII, multi-byte characters straddling byte 510, arbitrary strings; raw bodies that are invalid JSON, invalid UTF-8 or exceed the body limit) and generated quit messages of DELETE requests are sent through the real HTTP handlers of an in-process node by a channel member, a registered outsider and an unregistered session; every message in the output stream and every message served to two observing sessions by GET .../messages (after JSON transport) is checked against the re-stated line grammar.",
-		LevelNote:  "A prefix is required on relayed client commands and checked where present elsewhere (the closing ERROR and the services burst are emitted without prefix by fixed templates). A handler panic exits the process (exitOnRecover) and shows up as an inconclusive shard, not as a violation line.",
-		Technique:  "property-based testing (rapid) of the HTTP handlers with a validity predicate over every delivered line; native fuzzing of the POST body in the thorough tier",
-		DesignRef:  "4/C15",
-		Rule:       "case = 1-20 generated requests (JSON post / raw post / DELETE with quit message) from three poster roles; every output message is an evaluation (counter lines_checked_in_output_stream); non-trivial = a request whose text contains CR/LF/NUL or exceeds 510 bytes AND at least one line was delivered to another session; distinct = hash of the request list",
+		LevelText:   "Generated POST bodies (JSON with control characters incl. CR/LF/NUL and whole forged second lines, over-long ASCII, multi-byte characters straddling byte 510, arbitrary strings; raw bodies that are invalid JSON, invalid UTF-8 or exceed the body limit) and generated quit messages of DELETE requests are sent through the real HTTP handlers of an in-process node by a channel member, a registered outsider and an unregistered session; every message in the output stream and every message served to two observing sessions by GET .../messages (after JSON transport) is checked against the re-stated line grammar.",
+		LevelNote:   "A prefix is required on relayed client commands and checked where present elsewhere (the closing ERROR and the services burst are emitted without prefix by fixed templates). A handler panic exits the process (exitOnRecover) and shows up as an inconclusive shard, not as a violation line.",
+		Technique:   "property-based testing (rapid) of the HTTP handlers with a validity predicate over every delivered line; native coverage-guided fuzzing of client histories with the same predicate over every reply in the thorough tier",
+		DesignRef:   "4/C15",
+		Rule:        "case = 1-20 generated requests (JSON post / raw post / DELETE with quit message) from three poster roles; every output message is an evaluation (counter lines_checked_in_output_stream); non-trivial = a request whose text contains CR/LF/NUL or exceeds 510 bytes AND at least one line was delivered to another session; distinct = hash of the request list",
 		Assumptions: []string{"single voter raft in-process; PostMessageCooloff=0"},
-		Units:      []unit{nodeUnit("node", "^TestVerifC15$", 2400, 40000)},
+		Units: []unit{nodeUnit("node", "^TestVerifC15$", 2400, 40000),
+			fuzzUnit("fuzz-lines", "internal/ircserver", "ircserver", "FuzzVerifC15Lines", 300)},
 	})
 }
 
 func init() {
 	props = append(props, prop{
 		ID: "C11", Title: "secrets and passwords gate the routes", Level: "exploration",
-		LevelText:  "Generated interleavings of session life-cycle events (create, login, delete) and probes on an in-process node: POST message / GET messages / DELETE session against the own, another live, a deleted, a never-existing and a malformed session id, with no, empty, wrong, truncated, extended, another live session's, a deleted session's and the correct secret; and every private path (a fixed list, whatever the current api.go/robustirc.go mention in case \"/...\" clauses, and random paths) with every method and no / wrong user / wrong password / empty / correct credentials. A request succeeds iff it carries the live target session's own secret; a refused request must leave raft's index, the output stream and the whole state untouched and reveal no message; private paths answer 401 exactly without the password.",
-		LevelNote:  "/quit, /join, /part and the raft transport are only probed without the password (they end the process, change the cluster or need a peer). Routes mounted in main() besides the two dispatchers are covered by the cluster check of C05.",
-		Technique:  "property-based testing (rapid) of the HTTP dispatchers with an authorisation oracle and a no-effect (state-diff) oracle",
-		DesignRef:  "4/C11",
-		Rule:       "case = 7-42 generated steps on up to 5 sessions; non-trivial = contains a probe with a secret that is valid for another live session, or a probe against a deleted session; labels c11:<route>/<target>/<credential> and c11:private/<auth> count histories per class; distinct = hash of the step list",
+		LevelText:   "Generated interleavings of session life-cycle events (create, login, delete) and probes on an in-process node: POST message / GET messages / DELETE session against the own, another live, a deleted, a never-existing and a malformed session id, with no, empty, wrong, truncated, extended, another live session's, a deleted session's and the correct secret; and every private path (a fixed list, whatever the current api.go/robustirc.go mention in case \"/...\" clauses, and random paths) with every method and no / wrong user / wrong password / empty / correct credentials. A request succeeds iff it carries the live target session's own secret; a refused request must leave raft's index, the output stream and the whole state untouched and reveal no message; private paths answer 401 exactly without the password.",
+		LevelNote:   "/quit, /join, /part and the raft transport are only probed without the password (they end the process, change the cluster or need a peer). Routes mounted in main() besides the two dispatchers are covered by the cluster check of C05.",
+		Technique:   "property-based testing (rapid) of the HTTP dispatchers with an authorisation oracle and a no-effect (state-diff) oracle",
+		DesignRef:   "4/C11",
+		Rule:        "case = 7-42 generated steps on up to 5 sessions; non-trivial = contains a probe with a secret that is valid for another live session, or a probe against a deleted session; labels c11:<route>/<target>/<credential> and c11:private/<auth> count histories per class; distinct = hash of the step list",
 		Assumptions: []string{"single voter raft in-process"},
-		Units:      []unit{nodeUnit("node", "^TestVerifC11$", 480, 10000)},
+		Units:       []unit{nodeUnit("node", "^TestVerifC11$", 480, 10000)},
 	})
 }
 
 func init() {
 	props = append(props, prop{
 		ID: "C20", Title: "concurrent API use is free of data races", Level: "exploration",
-		LevelText:  "The in-process node is built with -race. Groups of concurrently running operation streams are generated from the seed: posts (also two posters on one session, with a non-zero cool-off so that throttling does its bookkeeping), long-poll reads with reconnects, session creation/deletion, status and config pages, the expiry sweep, raft snapshots, user-triggered raft restores, and direct calls of the exported methods of IRCServer, OutputStream and LevelDBStore that the running system uses from those roles. The Go race detector is the oracle; each report is keyed by the sorted pair of the top robustirc frames of the two accesses.",
-		LevelNote:  "Interleavings are the Go scheduler's (GOMAXPROCS 2/4/16, injected Gosched), sampled not enumerated. GLINE stays out of the concurrent stream (lock-order inversion with ThrottleUntil/ExpireSessions can deadlock: a liveness defect, not a race); while a restore runs nothing reads the output stream (Restore closes it under readers, which is a crash, not a race). Replays re-run the shard seed (best effort).",
-		Technique:  "randomised concurrent stress generation with the Go race detector as oracle",
-		DesignRef:  "4/C20",
-		Rule:       "case = group of 3-10 generated operation streams (3-14 operations each) against a fresh node; non-trivial = a read-side stream (long-poll, status page, direct call) ran while a POST was being applied; distinct = hash of the group; labels count groups per stream kind",
+		LevelText:   "The in-process node is built with -race. Groups of concurrently running operation streams are generated from the seed: posts (also two posters on one session, with a non-zero cool-off so that throttling does its bookkeeping), long-poll reads with reconnects, session creation/deletion, status and config pages, the expiry sweep, raft snapshots, user-triggered raft restores, and direct calls of the exported methods of IRCServer, OutputStream and LevelDBStore that the running system uses from those roles. The Go race detector is the oracle; each report is keyed by the sorted pair of the top robustirc frames of the two accesses.",
+		LevelNote:   "Interleavings are the Go scheduler's (GOMAXPROCS 2/4/16, injected Gosched), sampled not enumerated. GLINE stays out of the concurrent stream (lock-order inversion with ThrottleUntil/ExpireSessions can deadlock: a liveness defect, not a race); while a restore runs nothing reads the output stream (Restore closes it under readers, which is a crash, not a race). Replays re-run the shard seed (best effort).",
+		Technique:   "randomised concurrent stress generation with the Go race detector as oracle",
+		DesignRef:   "4/C20",
+		Rule:        "case = group of 3-10 generated operation streams (3-14 operations each) against a fresh node; non-trivial = a read-side stream (long-poll, status page, direct call) ran while a POST was being applied; distinct = hash of the group; labels count groups per stream kind",
 		Assumptions: []string{"only combinations the running system really executes concurrently are generated"},
-		Units:      []unit{{Name: "race", Pkg: ".", Harness: "main", Mode: "race", Run: "^TestVerifC20$", Quick: 480, Thorough: 9600, QuickTimeoutS: 900, ThoroughTimeoutS: 3400}},
+		Units:       []unit{{Name: "race", Pkg: ".", Harness: "main", Mode: "race", Run: "^TestVerifC20$", Quick: 480, Thorough: 9600, QuickTimeoutS: 900, ThoroughTimeoutS: 3400}},
 	})
 }
 
 func init() {
 	props = append(props, prop{
 		ID: "C05", Title: "acknowledged messages survive crashes and fail-over", Level: "fault_enumeration",
-		LevelText:  "Generated fault schedules against (a) an in-process single node (real raft, LevelDB, output stream, HTTP handlers): 2-4 concurrent clients that follow the bridge's protocol (one message in flight, retry the same client message id until acknowledged, stop on 404) post while the schedule forces snapshots, restarts the node (also while POSTs are in flight, restoring from the newest snapshot); (b) three real robustirc binaries on loopback with HTTPS clients, SIGKILL / restart / SIGSTOP of generated nodes (the leader included), forced snapshots and kill-all. After healing every acknowledged message must be delivered exactly once, in the sender's posting order, identically by every node; unacknowledged messages at most once.",
-		LevelNote:  "Interleavings of real processes and goroutines are sampled, not enumerated. A network that does not become healthy within its deadline is inconclusive (exit 2), never a violation. Default expiration keeps everything inside the compaction horizon.",
-		Technique:  "generated fault injection (rapid) with a history oracle over the clients' acknowledgement log",
-		DesignRef:  "4/C05",
-		Rule:       "unit node: case = 2-4 clients x 5-40 messages + 1-5 timed faults (snapshot/restart/pause); non-trivial = a restart while a POST was in flight, or a restart that restored from a snapshot; unit cluster: case = timed list of kill/restart/pause/snapshot/kill-all faults on 3 real nodes with 3 senders + 1 observer; non-trivial = a kill of the then-leader or a kill-all; distinct = hash of the schedule",
+		LevelText:   "Generated fault schedules against (a) an in-process single node (real raft, LevelDB, output stream, HTTP handlers): 2-4 concurrent clients that follow the bridge's protocol (one message in flight, retry the same client message id until acknowledged, stop on 404) post while the schedule forces snapshots, restarts the node (also while POSTs are in flight, restoring from the newest snapshot); (b) three real robustirc binaries on loopback with HTTPS clients, SIGKILL / restart / SIGSTOP of generated nodes (the leader included), forced snapshots and kill-all. After healing every acknowledged message must be delivered exactly once, in the sender's posting order, identically by every node; unacknowledged messages at most once.",
+		LevelNote:   "Interleavings of real processes and goroutines are sampled, not enumerated. A network that does not become healthy within its deadline is inconclusive (exit 2), never a violation. Default expiration keeps everything inside the compaction horizon.",
+		Technique:   "generated fault injection (rapid) with a history oracle over the clients' acknowledgement log",
+		DesignRef:   "4/C05",
+		Rule:        "unit node: case = 2-4 clients x 5-40 messages + 1-5 timed faults (snapshot/restart/pause); non-trivial = a restart while a POST was in flight, or a restart that restored from a snapshot; unit cluster: case = timed list of kill/restart/pause/snapshot/kill-all faults on 3 real nodes with 3 senders + 1 observer; non-trivial = a kill of the then-leader or a kill-all; distinct = hash of the schedule",
 		Assumptions: []string{"clients follow the bridge protocol (unique non-zero client message ids, same id on retry)", "PostMessageCooloff=0 installed through POST /config"},
 		Units: []unit{
 			{Name: "node", Pkg: ".", Harness: "main", Run: "^TestVerifC05$", Rapid: true, Quick: 320, Thorough: 6000, QuickTimeoutS: 300, ThoroughTimeoutS: 3400},
